@@ -557,6 +557,26 @@ def gen_source_freshness(rng):
                                                                          "style": "source-freshness"}}
 
 
+def gen_many_rows(rng):
+    """reads that return more rows than any fetch batch: a system with 20-40 keys, 20-40 systems, as many systems
+    sharing one value"""
+    n = rng.choice([17, 20, 33, 40])
+    key = rng.choice(KEYS)
+    v = gen_strict(rng)
+    views = {"s0": {"kind": "store", "strict": True}, "s1": {"kind": "store", "strict": True},
+             "srcd": {"kind": "source", "find_enabled": True, "prefix": "", "explicit": False}}
+    steps = []
+    for i in range(n):
+        steps.append({"view": "s0", "op": "set_value", "sid": cps("big"), "key": cps("k%02d" % i), "value": I(i)})
+        steps.append({"view": "s0", "op": "set_value", "sid": cps("sys%02d" % i), "key": cps(key), "value": v})
+    steps += [{"view": "s1", "op": "get_data", "sid": cps("big")}, {"view": "s1", "op": "list_systems"},
+              {"view": "s1", "op": "find_systems", "key": cps(key), "value": v},
+              {"view": "srcd", "op": "get_data", "sid": cps("big")},
+              {"view": "s0", "op": "delete_data", "sid": cps("sys00")}, {"view": "s1", "op": "list_systems"},
+              {"view": "s0", "op": "find_systems", "key": cps(key), "value": v}]
+    return {"kind": "history", "views": views, "steps": steps, "_meta": {"proc": False, "outside": False, "style": "many-rows"}}
+
+
 def gen_interleave(rng):
     """another connection's complete call falls between two SQL statements of one call (kind "interleave")"""
     sids = rng.sample(SIDS, 2)
